@@ -341,7 +341,7 @@ func main() {
 			budget := 50 * time.Second
 			size, depth := 3, 3
 			if tier == "thorough" {
-				budget = 12 * time.Minute
+				budget = 30 * time.Minute
 				size, depth = 4, 4
 			}
 			return []mc.Family{
